@@ -2,6 +2,7 @@ import Dmn.Lemmas.EvalM
 import Dmn.Lemmas.Ops
 import Dmn.Props.C13
 import Dmn.Lemmas.Iter
+import Dmn.Lemmas.EvalSpec
 
 /-!
 # C01 — FEEL core expressions evaluate to the value the FEEL semantics assigns
@@ -428,5 +429,67 @@ theorem declaredOrder_iter_eq_spec_iter (ts : List (Nat × Iter.State)) (hne : t
     obtain ⟨t, ht, rfl⟩ := List.mem_map.mp hst
     exact hfresh t ((hmem ts t).mp ht)
 
-end Dmn.Eval
+/-! ## the model of the code *is* the FEEL semantics (inside the envelope of a real machine) -/
 
+/-- Inside the envelope — non-empty state lists in declaration order built by `add_range` /
+`add_list` from lists of at most 2⁶³ items, filter lists shorter than 2⁶⁴ — the two variation
+points of the evaluator coincide. -/
+theorem guard_code_eq_guard_spec : Variant.guard Variant.code = Variant.guard Variant.spec := by
+  have hiter : (Variant.guard Variant.code).iter = (Variant.guard Variant.spec).iter := by
+    funext ts
+    simp only [Variant.guard]
+    by_cases h : IterEnvelope ts
+    · rw [if_pos h, if_pos h]
+      exact code_iter_eq_spec_iter_of_sorted ts h.nonempty
+        (fun t ht => Iter.fresh_of_shaped t.2 (h.shaped t ht) (h.small t ht))
+        (pairwise_of_sortedPos ts h.sorted)
+    · rw [if_neg h, if_neg h]
+  have hindex : (Variant.guard Variant.code).index = (Variant.guard Variant.spec).index := by
+    funext vs d
+    simp only [Variant.guard]
+    by_cases h : vs.length < 2 ^ 64
+    · rw [if_pos h, if_pos h]; exact index_code_eq_spec vs d h
+    · rw [if_neg h, if_neg h]
+  cases hc : Variant.guard Variant.code with
+  | mk i1 x1 =>
+    cases hs : Variant.guard Variant.spec with
+    | mk i2 x2 =>
+      rw [hc] at hiter hindex
+      rw [hs] at hiter hindex
+      simp only at hiter hindex
+      rw [hiter, hindex]
+
+/-- **`eval = den`.** The model of the code and the FEEL semantics assign the same outcome —
+value, scope afterwards, panic or divergence — to every syntax tree in every scope, for every
+fuel, every number arithmetic and every table of built-ins, as long as no list of more than
+2⁶³ items is iterated over and no list of 2⁶⁴ or more items is indexed (outside that envelope
+both are replaced by the same placeholder; a `Vec` cannot be that long). The structural part of
+the envelope is not an assumption: `evalIteration_shaped` / `evalQuantified_shaped` show that
+the evaluator only ever hands sorted, well-shaped state lists to the iteration engine. -/
+theorem evalWith_guard_code_eq_spec (num : NumOps) (bifPos : String → List Value → Outcome Value)
+    (bifNamed : String → List (String × Value × Nat) → Outcome Value) (fuel : Nat) (a : Ast) :
+    evalWith (Variant.guard Variant.code) num bifPos bifNamed fuel a =
+      evalWith (Variant.guard Variant.spec) num bifPos bifNamed fuel a := by
+  rw [guard_code_eq_guard_spec]
+
+/-- Inside the envelope the guard is the identity: for a `for` over two short lists the guarded
+code variant runs the state machine itself. -/
+example : (Variant.guard Variant.code).iter
+      [(0, Iter.mkList "x" [.num ⟨false, 1, 0⟩, .num ⟨false, 2, 0⟩]), (1, Iter.mkRange "i" 1 3)] =
+    Variant.code.iter [(0, Iter.mkList "x" [.num ⟨false, 1, 0⟩, .num ⟨false, 2, 0⟩]), (1, Iter.mkRange "i" 1 3)] := by
+  apply guard_iter_inside
+  refine ⟨by simp, by decide, ?_, ?_⟩
+  · intro t ht
+    rcases List.mem_cons.mp ht with rfl | ht
+    · exact Iter.Shaped.list _ _ (by simp)
+    · rcases List.mem_cons.mp ht with rfl | ht
+      · exact Iter.Shaped.range _ _ _ (by decide) (by decide) (by decide) (by decide)
+      · cases ht
+  · intro t ht
+    rcases List.mem_cons.mp ht with rfl | ht
+    · simp [Iter.mkList, Iter.i64Max]
+    · rcases List.mem_cons.mp ht with rfl | ht
+      · simp [Iter.mkRange, Iter.i64Max]
+      · cases ht
+
+end Dmn.Eval
